@@ -1522,3 +1522,197 @@ def replay_c16_keygen(args):
     finally:
         csm.hkdf_expand, csm.hkdf_extract = real_expand, real_extract
     return (len(bad) > 0), "c16_keygen: %d mismatches %s" % (len(bad), str(bad[:2])[:200])
+
+
+# ---------------------------------------------------------------------------
+# secp256k1
+
+_SP = 2 ** 256 - 2 ** 32 - 977
+_SN = 0xFFFFFFFFFFFFFFFFFFFFFFFFFFFFFFFEBAAEDCE6AF48A03BBFD25E8CD0364141
+_SG = (0x79BE667EF9DCBBAC55A06295CE870B07029BFCDB2DCE28D959F2815B16F81798, 0x483ADA7726A3C4655DA4FBFC0E1108A8FD17B448A68554199C47D08FFB10D4B8)
+
+
+def _sec_mul(P, n):
+    R = aff_mul(P, n % _SN, _SP) if P is not None else None
+    return R
+
+
+def replay_c18_consts(args):
+    from py_ecc.secp256k1 import secp256k1 as sp
+    ok = (sp.P, sp.N, sp.A, sp.B, sp.Gx, sp.Gy) == (_SP, _SN, 0, 7, _SG[0], _SG[1])
+    return (not ok), "c18_consts: constants %s" % ("match" if ok else "DIFFER")
+
+
+def replay_c18_multiply(args):
+    from py_ecc.secp256k1 import secp256k1 as sp
+    bad = []
+    ns = [0, 1, 2, 3, _SN - 1, _SN, _SN + 1, 2 * _SN + 5, -1, -7, 2 ** 300 + 1, -(2 ** 260)]
+    if args.get("n"):
+        ns.insert(0, int(args["n"]))
+    Q = aff_mul(_SG, 987654321, _SP)
+    for P in (_SG, Q, (0, 0)):
+        for n in ns:
+            exp = _sec_mul(P if P != (0, 0) else None, n)
+            exp = (0, 0) if exp is None else exp
+            try:
+                got = tuple(int(c) for c in sp.multiply(P, n))
+            except Exception as e:
+                got = repr(e)[:50]
+            if got != exp:
+                bad.append((P[0] % 1000, n if abs(n) < 10 ** 6 else "big", str(got)[:30]))
+    return (len(bad) > 0), "c18_multiply: %d mismatches %s" % (len(bad), str(bad[:3])[:200])
+
+
+def replay_c18_affine(args):
+    from py_ecc.secp256k1 import secp256k1 as sp
+    bad = []
+    P1, P2 = aff_mul(_SG, 5, _SP), aff_mul(_SG, 11, _SP)
+    negP1 = (P1[0], -P1[1] % _SP)
+    cases = [(P1, P2), (P1, P1), (P1, negP1), (P1, (0, 0)), ((0, 0), P1), ((0, 0), (0, 0)), (_SG, _SG)]
+    for a, b in cases:
+        exp = aff_add(None if a == (0, 0) else a, None if b == (0, 0) else b, _SP)
+        exp = (0, 0) if exp is None else exp
+        got = tuple(int(c) for c in sp.add(a, b))
+        if got != exp:
+            bad.append((a[0] % 1000, b[0] % 1000, got[0] % 1000))
+    for d in (b"\x01", (5).to_bytes(32, "big"), (_SN - 1).to_bytes(32, "big"), b"\x00" * 31 + b"\x02"):
+        if tuple(sp.privtopub(d)) != _sec_mul(_SG, int.from_bytes(d, "big")):
+            bad.append(("privtopub", d.hex()[:8]))
+    return (len(bad) > 0), "c18_affine: %d mismatches %s" % (len(bad), str(bad[:3])[:200])
+
+
+def replay_c18_b2i(args):
+    from py_ecc.secp256k1 import secp256k1 as sp
+    bad = [L for L in range(0, 40) if sp.bytes_to_int(bytes((7 * i + 1) % 256 for i in range(L))) != int.from_bytes(bytes((7 * i + 1) % 256 for i in range(L)), "big")]
+    return (len(bad) > 0), "c18_b2i: %s" % bad[:5]
+
+
+def _sec_lift(x, parity):
+    t = (x ** 3 + 7) % _SP
+    y = pow(t, (_SP + 1) // 4, _SP)
+    if y * y % _SP != t:
+        return None
+    if y % 2 != parity:
+        y = _SP - y
+    return (x, y)
+
+
+def _oracle_recover(z, v, r, s):
+    """independent ECDSA public key recovery; returns point, or 'reject'."""
+    if v not in (27, 28) or r % _SN == 0 or s % _SN == 0 or not (0 <= r < _SP):
+        return "reject"
+    R = _sec_lift(r, v - 27)
+    if R is None:
+        return "reject"
+    ri = pow(r % _SN, -1, _SN)
+    sR = aff_mul(R, s % _SN, _SP)
+    zG = aff_mul(_SG, (-z) % _SN, _SP)
+    Q = aff_mul(aff_add(sR, zG, _SP), ri, _SP) if aff_add(sR, zG, _SP) is not None else None
+    return Q if Q is not None else (0, 0)
+
+
+def replay_c19_recover(args):
+    from py_ecc.secp256k1 import secp256k1 as sp
+    bad = []
+    rng = random.Random(19)
+    xs_valid = [x for x in range(1, 40) if _sec_lift(x, 0)]
+    xs_invalid = [x for x in range(1, 40) if not _sec_lift(x, 0)]
+    cases = []
+    if args.get("r") is not None and args.get("v") is not None:
+        cases.append((int(args.get("z", 1)), int(args["v"]), int(args["r"]), int(args.get("s", 1))))
+        for vv in (27, 28):
+            cases.append((int(args.get("z", 1)), vv, int(args["r"]), int(args.get("s", 1))))
+            cases.append((int(args.get("z", 1)), vv, int(args["r"]), max(1, int(args.get("s", 1)) % _SN)))
+        # repair: the solver's r may not be an abscissa; also try the neighbouring valid / invalid abscissae with the same v, s
+        for x in xs_valid[:2] + xs_invalid[:1]:
+            cases.append((int(args.get("z", 1)), int(args["v"]), x, int(args.get("s", 1))))
+    for v in (0, 1, 26, 27, 28, 29, 35):
+        for r in (0, 1, xs_valid[0], xs_invalid[0], _SN - 1, _SN, _SN + 1, _SP - 1, aff_mul(_SG, 77, _SP)[0]):
+            for s in (0, 1, (_SN - 1) // 2, (_SN + 1) // 2, _SN - 1, _SN, _SN + 1, 12345):
+                if v in (27, 28) or (r, s) == (1, 1):
+                    cases.append((rng.randrange(2 ** 256), v, r, s))
+    for z, v, r, s in cases[:260]:
+        h = z.to_bytes(max(1, (z.bit_length() + 7) // 8), "big")
+        zz = int.from_bytes(h, "big")
+        exp = _oracle_recover(zz, v, r, s)
+        try:
+            got = tuple(int(c) for c in sp.ecdsa_raw_recover(h, (v, r, s)))
+        except ValueError:
+            got = "reject"
+        except Exception as e:
+            got = repr(e)[:40]
+        if got != exp:
+            bad.append((v, r if r < 10 ** 6 else "big", s if s < 10 ** 6 else "big", str(got)[:20]))
+    return (len(bad) > 0), "c19_recover: %d mismatches %s" % (len(bad), str(bad[:3])[:250])
+
+
+def replay_c06_nonce(args):
+    import hmac, hashlib
+    from py_ecc.secp256k1 import secp256k1 as sp
+    bad = []
+    for priv, h in ((b"\x01" * 32, b"\x00" * 32), (bytes(range(32)), b""), (b"\xff" * 32, b"\xab" * 64), (b"\x10" * 32, b"\x01" * 31)):
+        V, K = b"\x01" * 32, b"\x00" * 32
+        K = hmac.new(K, V + b"\x00" + priv + h, hashlib.sha256).digest()
+        V = hmac.new(K, V, hashlib.sha256).digest()
+        K = hmac.new(K, V + b"\x01" + priv + h, hashlib.sha256).digest()
+        V = hmac.new(K, V, hashlib.sha256).digest()
+        T = hmac.new(K, V, hashlib.sha256).digest()
+        if sp.deterministic_generate_k(h, priv) != int.from_bytes(T, "big"):
+            bad.append((priv[:2].hex(), len(h)))
+    return (len(bad) > 0), "c06_nonce: %d mismatches %s" % (len(bad), bad[:3])
+
+
+def replay_c06_sign(args):
+    from py_ecc.secp256k1 import secp256k1 as sp
+    bad = []
+    rng = random.Random(6)
+    ds = [1, 2, _SN - 2, _SN - 1, 12345] + [rng.randrange(1, _SN) for _ in range(6)]
+    hs = [b"\x00" * 32, b"\xff" * 32, (_SN - 1).to_bytes(32, "big"), _SN.to_bytes(32, "big"), (_SN + 1).to_bytes(32, "big"), b"", b"abc", b"\x07" * 64] + \
+         [bytes(rng.randrange(256) for _ in range(32)) for _ in range(4)]
+    for d in ds:
+        priv = d.to_bytes(32, "big")
+        pub = _sec_mul(_SG, d)
+        for h in hs[: (12 if d < 20 or d > _SN - 5 else 5)]:
+            try:
+                v, r, s = sp.ecdsa_raw_sign(h, priv)
+                z = int.from_bytes(h, "big")
+                ok = v in (27, 28) and 1 <= r < _SN and 1 <= s <= _SN // 2
+                # verification equation
+                w = pow(s, -1, _SN)
+                X = aff_add(aff_mul(_SG, z * w % _SN, _SP), aff_mul(pub, r * w % _SN, _SP), _SP)
+                ok = ok and X is not None and X[0] % _SN == r
+                ok = ok and tuple(int(c) for c in sp.ecdsa_raw_recover(h, (v, r, s))) == pub
+                try:
+                    other = tuple(int(c) for c in sp.ecdsa_raw_recover(h, (55 - v, r, s)))
+                except ValueError:
+                    other = None
+                ok = ok and other != pub
+                if sp.ecdsa_raw_sign(h, priv) != (v, r, s):
+                    ok = False
+                if not ok:
+                    bad.append((d if d < 10 ** 6 else "big", h[:4].hex(), v))
+            except Exception as e:
+                bad.append((repr(e)[:50], d if d < 10 ** 6 else "big"))
+    # boundary values of s are unreachable through SHA-256 (probability 2^-256): inject the nonce (deterministic_generate_k
+    # is C06.rfc6979_nonce's subject) and choose the hash so that s0 = k^-1 (z + r d) hits the boundary
+    real_k = sp.deterministic_generate_k
+    try:
+        for d in (5, _SN - 3):
+            pub = _sec_mul(_SG, d)
+            for k in (3, 2 ** 200 + 9):
+                r = aff_mul(_SG, k, _SP)[0]
+                for target in ((_SN - 1) // 2, (_SN + 1) // 2, 1, _SN - 1, (_SN + 3) // 2):
+                    z = (target * k - r * d) % _SN
+                    h = z.to_bytes(32, "big")
+                    sp.deterministic_generate_k = lambda msghash, priv, k=k: k
+                    v, rr, s = sp.ecdsa_raw_sign(h, d.to_bytes(32, "big"))
+                    ok = v in (27, 28) and rr == r and 1 <= s <= _SN // 2 and s in (target, _SN - target)
+                    try:
+                        ok = ok and tuple(int(c) for c in sp.ecdsa_raw_recover(h, (v, rr, s))) == pub
+                    except Exception:
+                        ok = False
+                    if not ok:
+                        bad.append(("injected nonce", d if d < 100 else "N-3", "s0=%s" % ("(N+1)/2" if target == (_SN + 1) // 2 else target if target < 10 else "boundary"), v))
+    finally:
+        sp.deterministic_generate_k = real_k
+    return (len(bad) > 0), "c06_sign: %d failures %s" % (len(bad), str(bad[:3])[:250])
